@@ -5,12 +5,17 @@ package main
 //	verify <ver> <hex id>:<hex json> <script>   -> ok | rej
 //	trace  <ver> <hex id>:<hex json> <script>   -> asked:<sorted "hexserver@ts/s<strict>/r<redacted>"> | none | -
 //
-// script = "<hexserver>=<0|1>,...;<default 0|1>;<verifier error 0|1>": what the verifier answers per server
-// name (1 = signature valid, 0 = error: missing / corrupted / wrong key / key not valid at that time).
+// script = "<hexserver>=<0|1>,...;<default 0|1>;<verifier error 0|1>[;<hexname>=<0|1>,...]": what the verifier
+// answers per server name (1 = signature valid, 0 = error: missing / corrupted / wrong key / key not valid at that
+// time).  The optional fourth section is for the pseudo-ID room version only and is read by the MODEL alone: for
+// each name, whether the name is a base64 ed25519 key under which VerifyJSON(name, "ed25519:1", key, redacted event)
+// succeeds (computed by the generator with VerifyJSON and RedactEventJSON; the implementation does the real thing).
 
 import (
 	"bytes"
 	"context"
+	"crypto/ed25519"
+	"encoding/base64"
 	"encoding/json"
 	"errors"
 	"fmt"
@@ -258,6 +263,207 @@ func genSignersEvent(r *Rng, ver string) *signersCase {
 	return &signersCase{ver: ver, ev: ev, label: label}
 }
 
+// ---------------------------------------------------------------- pseudo-ID room version (org.matrix.msc4014)
+
+const pseudoVer = "org.matrix.msc4014"
+
+type pseudoCase struct {
+	signersCase
+	self [][2]string // name -> "1" when its own key validly signed the redacted event
+}
+
+func pseudoKey(r *Rng) (string, ed25519.PrivateKey) {
+	priv := ed25519.NewKeyFromSeed(r.randBytes(32))
+	return base64.RawURLEncoding.EncodeToString(priv.Public().(ed25519.PublicKey)), priv
+}
+
+// selfOK: what JSONVerifierSelf decides for one name.
+func selfOK(name string, red []byte) bool {
+	key, err := spec.SenderID(name).RawBytes()
+	if err != nil {
+		return false
+	}
+	return gmsl.VerifyJSON(name, "ed25519:1", ed25519.PublicKey(key), red) == nil
+}
+
+func genPseudoEvent(r *Rng) *pseudoCase {
+	ver := gmsl.MustGetRoomVersion(pseudoVer)
+	sid, spriv := pseudoKey(r)
+	label := "pseudo"
+	type signer struct {
+		name string
+		priv ed25519.PrivateKey
+		kid  string
+	}
+	signers := []signer{{sid, spriv, "ed25519:1"}}
+	if r.Chance(8) {
+		signers = nil
+		label += "-unsigned"
+	}
+	if r.Chance(6) {
+		sid = Pick(r, []string{"@alice:hs1", "", "AAAA", r.id43(), base64.RawStdEncoding.EncodeToString(spriv.Public().(ed25519.PublicKey))})
+		if len(signers) > 0 {
+			signers[0].name = sid
+		}
+		label += "-oddsender"
+	}
+	fields := map[string]interface{}{"sender": sid}
+	names := []string{sid}
+	switch k := r.Intn(100); {
+	case k < 75:
+		fields["type"] = "m.room.member"
+		m := Pick(r, []string{"join", "join", "join", "invite", "invite", "leave", "ban", "knock"})
+		label += "-" + m
+		c := map[string]interface{}{"membership": m}
+		fields["state_key"] = sid
+		if m == "invite" || m == "ban" {
+			tid, tpriv := pseudoKey(r)
+			fields["state_key"] = tid
+			names = append(names, tid)
+			if m == "invite" && r.Chance(70) {
+				signers = append(signers, signer{tid, tpriv, "ed25519:1"})
+			}
+			if r.Chance(5) {
+				fields["state_key"] = "@bob:hs2"
+				names = append(names, "@bob:hs2")
+			}
+		}
+		if m == "join" {
+			uid := Pick(r, signerUsers)
+			mp := map[string]interface{}{"user_room_key": sid, "user_id": uid}
+			switch r.Intn(12) {
+			case 0:
+				label += "-nomapping"
+				mp = nil
+			case 1, 2:
+				label += "-mapping-unsigned"
+				if r.Bool() {
+					mp["signatures"] = map[string]interface{}{}
+				}
+			case 3:
+				label += "-mapping-othersigner"
+				mp["signatures"] = map[string]interface{}{"evil.org": map[string]string{"ed25519:1": "AAAA"}}
+			case 4:
+				label += "-mapping-bad"
+				mp[Pick(r, []string{"user_id", "user_room_key", "signatures"})] = Pick(r, []interface{}{5, []string{}, true})
+			case 5:
+				label += "-mapping-badsig"
+				mp["signatures"] = map[string]interface{}{domainOf(uid): Pick(r, []interface{}{map[string]interface{}{"ed25519:1": "!"}, map[string]interface{}{"k": 5}, 5, nil})}
+			default:
+				sg := map[string]interface{}{domainOf(uid): map[string]string{"ed25519:1": base64.RawStdEncoding.EncodeToString(r.randBytes(64))}}
+				if r.Chance(25) {
+					sg["hs9"] = map[string]string{"ed25519:x": "AAAA"}
+				}
+				mp["signatures"] = sg
+				label += "-mapping"
+			}
+			if mp != nil {
+				c["mxid_mapping"] = mp
+			} else if r.Bool() {
+				c["mxid_mapping"] = nil
+			}
+			if r.Chance(12) {
+				via := Pick(r, append([]string{"@x:" + sid}, signerUsers...))
+				c["join_authorised_via_users_server"] = via
+				names = append(names, domainOf(via))
+				label += "-via"
+			}
+			if r.Chance(4) {
+				c[Pick(r, []string{"displayname", "is_direct", "third_party_invite", "reason"})] = 5
+				label += "-badfield"
+			}
+		}
+		fields["content"] = c
+		if r.Chance(3) {
+			fields["content"] = Pick(r, []interface{}{"x", []int{1}, json.RawMessage("null")})
+			label += "-badcontent"
+		}
+	default:
+		fields["type"] = Pick(r, []string{"m.room.message", "m.room.name", "x.custom"})
+		fields["content"] = map[string]interface{}{"body": "x"}
+		if r.Bool() {
+			fields["state_key"] = ""
+		}
+	}
+	id := "$" + r.id43()
+	unsignedEv := mkEventWithID(r, pseudoVer, id, fields)
+	if unsignedEv == nil {
+		return nil
+	}
+	red, err := ver.RedactEventJSON(unsignedEv.JSON)
+	if err != nil {
+		return nil
+	}
+	sigs := map[string]map[string]spec.Base64Bytes{}
+	for _, sg := range signers {
+		kid := sg.kid
+		if r.Chance(5) {
+			kid = "ed25519:2" // JSONVerifierSelf looks for ed25519:1 only
+			label += "-otherkid"
+		}
+		out, err := gmsl.SignJSON(sg.name, gmsl.KeyID(kid), sg.priv, red)
+		if err != nil {
+			continue
+		}
+		var so struct {
+			Signatures map[string]map[string]spec.Base64Bytes `json:"signatures"`
+		}
+		_ = json.Unmarshal(out, &so)
+		b := so.Signatures[sg.name][kid]
+		if r.Chance(6) && len(b) == 64 {
+			b[r.Intn(64)] ^= 1
+			label += "-corrupt"
+		}
+		if sigs[sg.name] == nil {
+			sigs[sg.name] = map[string]spec.Base64Bytes{}
+		}
+		sigs[sg.name][kid] = b
+	}
+	var m map[string]json.RawMessage
+	_ = json.Unmarshal(unsignedEv.JSON, &m)
+	sb, _ := json.Marshal(sigs)
+	m["signatures"] = sb
+	raw, _ := json.Marshal(m)
+	cj, err := gmsl.CanonicalJSON(raw)
+	if err != nil {
+		return nil
+	}
+	pdu, err := ver.NewEventFromTrustedJSONWithEventID(id, cj, false)
+	if err != nil {
+		return nil
+	}
+	ev := &Ev{PDU: pdu, ID: id, JSON: cj}
+	red2, err := ver.RedactEventJSON(pdu.JSON())
+	if err != nil {
+		return nil
+	}
+	c := &pseudoCase{signersCase: signersCase{ver: pseudoVer, ev: ev, label: label}}
+	seen := map[string]bool{}
+	for _, n := range names {
+		if seen[n] {
+			continue
+		}
+		seen[n] = true
+		b := "0"
+		if selfOK(n, red2) {
+			b = "1"
+		}
+		c.self = append(c.self, [2]string{n, b})
+	}
+	return c
+}
+
+func tableArg(table [][2]string) string {
+	var es []string
+	for _, e := range table {
+		es = append(es, hx([]byte(e[0]))+"="+e[1])
+	}
+	if len(es) == 0 {
+		return "-"
+	}
+	return strings.Join(es, ",")
+}
+
 func scriptArg(table [][2]string, dflt, verr bool) string {
 	var es []string
 	for _, e := range table {
@@ -285,8 +491,22 @@ func genSigners(o *Out, tier string, r *Rng) {
 		ver := allVersions[i%len(allVersions)]
 		if r.Chance(20) {
 			ver = Pick(r, []string{"1", "2"}) // the versions whose event IDs name a server
+		} else if r.Chance(8) {
+			ver = pseudoVer
 		}
-		c := genSignersEvent(r, ver)
+		var c *signersCase
+		selfSection := ""
+		if ver == pseudoVer {
+			pc := genPseudoEvent(r)
+			if pc == nil {
+				o.Count("construct-refused")
+				continue
+			}
+			c = &pc.signersCase
+			selfSection = ";" + tableArg(pc.self)
+		} else {
+			c = genSignersEvent(r, ver)
+		}
 		if c == nil {
 			o.Count("construct-refused")
 			continue
@@ -311,7 +531,7 @@ func genSigners(o *Out, tier string, r *Rng) {
 		if i < 6 {
 			o.Sample(c.label + " " + ver + " " + string(c.ev.JSON))
 		}
-		o.Do("trace", ver, arg, scriptArg(nil, true, false))
+		o.Do("trace", ver, arg, scriptArg(nil, true, false)+selfSection)
 		// every subset of the asked servers answering ok, the others failing; unrelated servers in both roles
 		for mask := 0; mask < 1<<uint(len(servers)); mask++ {
 			var table [][2]string
@@ -327,14 +547,14 @@ func genSigners(o *Out, tier string, r *Rng) {
 			}
 			// shuffle so that the first-entry-wins rule is exercised with unrelated duplicates
 			dflt := r.Bool()
-			o.Do("verify", ver, arg, scriptArg(table, dflt, false))
+			o.Do("verify", ver, arg, scriptArg(table, dflt, false)+selfSection)
 		}
 		if len(servers) == 0 || r.Chance(10) {
-			o.Do("verify", ver, arg, scriptArg(nil, r.Bool(), false))
+			o.Do("verify", ver, arg, scriptArg(nil, r.Bool(), false)+selfSection)
 		}
 		if r.Chance(8) {
-			o.Do("verify", ver, arg, scriptArg(nil, true, true))
-			o.Do("trace", ver, arg, scriptArg(nil, false, true))
+			o.Do("verify", ver, arg, scriptArg(nil, true, true)+selfSection)
+			o.Do("trace", ver, arg, scriptArg(nil, false, true)+selfSection)
 		}
 	}
 }
